@@ -471,6 +471,9 @@ func writeEvidence(prop, tier string, seed int64, ci *CheckInfo, r Result, nviol
 			cov["distinct_nontrivial"] = int64(0)
 		}
 	}
+	if ci.Assume == nil {
+		ci.Assume = []string{"bounded exhaustive exploration within the alphabet and bounds stated in coverage.rule", "at least one bonded validator with a registered EVM address exists from height 2 (DESIGN §2.6)", "SDK signature/fee/sequence ante decorators are not executed"}
+	}
 	known := 0
 	for _, v := range r.Violations {
 		_ = v
